@@ -258,6 +258,9 @@ func gen(g *zv.Gen) {
 		g.Emitf("c23 pssver %d %s %s %d %d", int(h), zv.Hex(mh), zv.Hex(em), emBits, []int{sl, 0, -1}[r.Intn(3)])
 	}
 
+	// ---- options structs and stateful arguments (seq.go) ----
+	genSeq(g, keys)
+
 	// ---- per key ----
 	per := g.N(14, 120)
 	for ki, k := range keys {
